@@ -519,6 +519,23 @@ func (u *Unit) evalCall(env *Env, e *Expr) Val {
 		return &Scalar{T: Ite(Cmp("<=", a, b), a, b), Typ: types.Typ[types.Int]}
 	case "real":
 		return &Scalar{T: ToReal(u.evalTerm(env, args[0])), Typ: types.Typ[types.Float64]}
+	case "newInThisIteration":
+		// newInThisIteration(x): x (or the pointer an interface value x holds) was allocated by this activation after
+		// the innermost enclosing loop was cut, i.e. in the current iteration: not a value carried over from an
+		// earlier one
+		v := u.eval(env, args[0])
+		if sc, ok := v.(*Scalar); ok {
+			if inner, ok := sc.Aux.(*Scalar); ok {
+				sc = inner
+			}
+			if isOwnAlloc(sc.T) && len(u.allocMarks) > 0 {
+				var k int
+				if _, err := fmt.Sscanf(sc.T.S, "(- %d)", &k); err == nil && k > u.allocMarks[len(u.allocMarks)-1] {
+					return &Scalar{T: TTrue, Typ: types.Typ[types.Bool]}
+				}
+			}
+		}
+		return &Scalar{T: TFalse, Typ: types.Typ[types.Bool]}
 	case "eachDuration":
 		// eachDuration(opts, d): every time.Duration among the (statically known) elements of the option list equals d;
 		// false when the elements are not known
